@@ -58,6 +58,7 @@ def run(ctx):
     c16.r2_octave(ctx)           # transpose() reads and writes pitches with the Humdrum codec: it must be the exact inverse pair
     c16.r3_alphabets(ctx)
     ctx.alias = {}
+    r6_american_reader(ctx)
     ctx.extra['base'] = B
 
 
@@ -407,3 +408,32 @@ def _match_transpose(ctx, tr, val, ta):
             and F.is_name(fac.args[0], 'input_format')):
         return False, 'importer is not PitchImporterFactory.create(input_format)'
     return True, ''
+
+
+# --------------------------------------------------------------------------- R6: the American spelling reader, on its whole domain
+def r6_american_reader(ctx):
+    """transpose(..., input_format='american') reads `<letter><sharps or flats><octave digits>`.  The reader is a small pure
+    function: the checker's own interpreter (no repository code runs) evaluates it for every letter, every run of up to two
+    sharps / flats and the octaves 0..9, and compares with the spelling that was written: name = letter + alteration (lower case as
+    the reader returns it), octave = the number."""
+    from ..consteval import Instance, NotConst
+    ci = ctx.prog.cls(f'{N.PITCH}.AmericanPitchImporter')
+    f = ctx.prog.find_method(ci, '_parse_pitch')
+    if f is None:
+        raise AnalysisError(f'anchor vanished: AmericanPitchImporter._parse_pitch')
+    bad, n = [], 0
+    for letter in 'ABCDEFG':
+        for acc in ('', '#', '##', '-', '--', '+', '++', 'b', 'bb'):
+            for octave in range(0, 10):
+                text = f'{letter}{acc}{octave}'
+                try:
+                    got = ctx.ce._run_function(f, [Instance(ci), text], {})
+                except NotConst as e:
+                    raise AnalysisError(f'{f.loc}: the American reader is not a function the interpreter follows ({e})')
+                n += 1
+                if not (isinstance(got, tuple) and len(got) == 2 and got[0] == (letter + acc).lower() and got[1] == octave):
+                    bad.append((text, got))
+    ctx.check(not bad, 'R6', f.loc, f.qualname, 'american-reader',
+              f'the American reader returns (letter + alteration, octave) for all {n} spellings letter x alteration x octave 0..9',
+              f'the American reader misreads {len(bad)} of {n} spellings, e.g. {bad[0][0]!r} -> {bad[0][1]!r}' + (f', {bad[1][0]!r} -> {bad[1][1]!r}' if len(bad) > 1 else '') +
+              ': a pitch given in American notation is transposed from another pitch than the one written' if bad else '')
